@@ -1712,6 +1712,252 @@ def check_connections(res, rng, tier, model_ok):
     return len(todo)
 
 
+# ---------------------------------------------------------------------------------------------
+# E. message SIZES: very large, highly compressible messages (a few tens of KiB on the wire) in ONE frame and in
+#    fragments, in both directions, with ordinary messages before and after them (the context is carried across).
+#    Oracle only for the sizes beyond BIG_MODEL_MAX (the model driver is not asked to inflate 16 MiB into a list);
+#    the judge is the independent zlib peer of refcodec (plaintexts compared whole, reported as length + sha256).
+
+BIG_ASCII_WORDS = [w for w in WORDS if all(b < 128 for b in w)]
+BIG_EDGES = [1 << 16, 1 << 20, 1 << 24]
+BIG_MODEL_MAX = (1 << 20) + 4096                # whole-connection plaintext up to which the Lean core model is also run (quick)
+BIG_MODEL_MAX_THOROUGH = (1 << 24) + 4096       # ... thorough (about 15 s and 3 GB per 16 MiB message)
+
+
+def big_plain(seed, typ, size):
+    """`size` bytes, highly compressible but not periodic: a unit of text / runs / mixed data repeated, with single bytes changed
+       at ~1 per 8 KiB random places and a distinctive tail; deterministic in (seed, typ, size).  'text' is ASCII."""
+    r = random.Random(seed * 1000003 + size * 31 + (1 if typ == 'text' else 2))
+    ulen = r.choice([700, 1500, 4093, 9001])
+    if typ == 'text':
+        unit = bytearray()
+        while len(unit) < ulen:
+            unit += r.choice(BIG_ASCII_WORDS)
+    else:
+        unit = bytearray(gen_plain(r, r.choice(['runs', 'mixed', 'text']), ulen))
+    data = bytearray((bytes(unit) * (size // len(unit) + 1))[:size])
+    for _ in range(min(4096, size // 8192 + (3 if size else 0))):
+        data[r.randrange(size)] = ALNUM[r.randrange(64)] if typ == 'text' else r.randrange(256)
+    tail = b'<end %d %d>' % (size, seed)
+    if size >= len(tail):
+        data[size - len(tail):] = tail
+    return bytes(data)
+
+
+def big_sizes(rng, tier):
+    """inflated sizes of one message: the 2^16 / 2^20 / 2^24 boundaries -1/0/+1 and a little around, 20 MiB, some in between"""
+    out = [e + d for e in BIG_EDGES for d in (-1, 0, 1)]
+    out += [e + rng.choice([-1, 1]) * rng.randint(2, 300) for e in BIG_EDGES]
+    out += [20 << 20, (17 << 20) + rng.randint(1, 99999), rng.randint(1 << 20, 1 << 24)]
+    if tier != 'quick':
+        out += [(1 << 24) + rng.randint(2, 70000), 2 * (1 << 24), 2 * (1 << 24) + 1, (1 << 25) + rng.randint(2, 5000), 40 << 20,
+                (1 << 22), (1 << 23) + 1, rng.randint(1 << 16, 1 << 20)]
+    return out
+
+
+def big_specs(rng, tier):
+    """one connection per spec: rx = what the peer sends [typ, size, pieces, compressed], tx = what the application sends
+       [typ, size, compress flag, after which event]"""
+    sizes = big_sizes(rng, tier)
+    rng.shuffle(sizes)
+    specs = []
+    cfgs = rng.sample(ALL_CONFIGS, 6 if tier == 'quick' else 40) + [(15, 15, 0, 0), (12, 15, 1, 0)]
+    rng.shuffle(cfgs)
+    per = 3 if tier == 'quick' else 2
+    k = 0
+    for cfg in cfgs:
+        mine = [sizes[(k + i) % len(sizes)] for i in range(per)]
+        k += per
+        rx, tx = [['text', rng.choice([5, 60, 400]), 1, 1]], []
+        for n in mine:
+            typ = 'text' if (tier != 'quick' and rng.random() < 0.15) else 'binary'
+            r_ = rng.random()
+            pieces = 1 if r_ < 0.7 else rng.choice([2, 3, 7])          # ONE frame mostly; also big messages in a few fragments
+            if rng.random() < 0.7:
+                rx.append([typ, n, pieces, 1])
+                rx.append([rng.choice(['text', 'binary']), rng.choice([0, 1, 30, 700]), 1, 1])      # the context after a big message
+            else:
+                tx.append([typ, n, 1, rng.randint(2, 2 + len(rx))])
+                tx.append(['binary', rng.choice([0, 1, 30, 700]), 1, rng.randint(2, 2 + len(rx))])
+        if rng.random() < 0.3:
+            rx.insert(rng.randrange(len(rx) + 1), ['binary', rng.choice([65535, 65536, 70000]), 1, 0])     # an uncompressed one among them
+        if rng.random() < 0.3:
+            tx.append(['binary', rng.choice([65535, 65536, 65537]), 0, 2])                                  # compress=False on a send
+        specs.append(dict(big=1, cfg=list(cfg), seed=rng.randrange(1 << 30), rx=rx, tx=sorted(tx, key=lambda t: t[3])))
+    # small enough for the Lean core model as well (it inflates into a list: ~1 s per MiB): one big message per connection, one frame,
+    # at the 2^16 and 2^20 boundaries (thorough: 2^24 too), each direction
+    if tier == 'quick':
+        edges = [((1 << 16) + d, rng.random() < 0.5) for d in (-1, 0, 1)] + [((1 << 20) + rng.choice([-1, 0, 1]), True), ((1 << 20) + rng.choice([-1, 0, 1]), False)]
+    else:
+        edges = [((1 << 16) + d, rng.random() < 0.5) for d in (-2, -1, 0, 1, 2, 3)] + [((1 << 20) + d, way) for d in (-1, 0, 1) for way in (True, False)]
+        edges += [((1 << 24) + d, way) for d in (0, 1) for way in (True, False)]
+    for n, inbound in edges:
+        cfg = rng.choice(ALL_CONFIGS)
+        if inbound:
+            rx, tx = [['binary', n, 1, 1], ['text', 20, 1, 1]], [['binary', 10, 1, 2]]
+        else:
+            rx, tx = [['text', 20, 1, 1]], [['binary', n, 1, 2], ['binary', 10, 1, 3]]
+        specs.append(dict(big=1, cfg=list(cfg), seed=rng.randrange(1 << 30), rx=rx, tx=tx))
+    limit = BIG_MODEL_MAX if tier == 'quick' else BIG_MODEL_MAX_THOROUGH
+    for sp in specs:
+        sp['model'] = 1 if sum(t[1] for t in sp['rx']) + sum(t[1] for t in sp['tx']) <= limit else 0
+    return specs
+
+
+def big_scenario(spec):
+    """spec -> (Scenario, expected data events, plaintexts of the sends in call order); no randomness but spec['seed']"""
+    sw, cw, snt, cnt = spec['cfg']
+    rng = random.Random(spec['seed'])
+    sc = Scenario([], prate=0, compress=True)
+    peer = DeflatePeer(sw, cw, bool(snt), bool(cnt))
+    frames, expected = [], []
+    for i, (typ, size, pieces, compressed) in enumerate(spec['rx']):
+        p = big_plain(spec['seed'] + i, typ, size)
+        wire = peer.compress(p) if compressed else p
+        parts = cut(wire, coreutil.random_cuts(rng, len(wire), pieces - 1)) or [wire]
+        for j, part in enumerate(parts):
+            frames.append(server_frame((1 if typ == 'text' else 2) if j == 0 else 0, part, fin=1 if j == len(parts) - 1 else 0,
+                                       rsv1=1 if (j == 0 and compressed) else 0))
+        expected.append('E:%s:%s' % (typ, p.hex()))
+    ext = 'permessage-deflate; server_max_window_bits=%d; client_max_window_bits=%d%s%s' % (
+        sw, cw, '; server_no_context_takeover' if snt else '', '; client_no_context_takeover' if cnt else '')
+    data = sc.good_reply(('Sec-WebSocket-Extensions: %s\r\n' % ext).encode()) + b''.join(frames)
+    sc.env = reads(coreutil.limit_chunks(cut(data, coreutil.random_cuts(rng, len(data), rng.choice([0, 1, 3]))))) + [('wait', 1, ('eof',))]
+    rx, plains = {}, []
+    for i, (typ, size, flag, at) in enumerate(spec['tx']):
+        p = big_plain(spec['seed'] + 1000 + i, typ, size)
+        plains.append(p)
+        if typ == 'text':
+            rx.setdefault(at, []).append(('send_text', ('s', [c for c in p]), bool(flag)))        # ASCII: code points = bytes
+        else:
+            rx.setdefault(at, []).append(('send_binary', ('b', p), bool(flag)))
+    sc.reactions = rx
+    return sc, expected, plains
+
+
+def _digest(tok):
+    """a trace token with a huge hex body -> 'E:binary:<n bytes>:<sha256/16>'"""
+    import hashlib
+    head, _, body = tok.rpartition(':')
+    if len(body) <= 80 or head.startswith('E:protocol_error'):
+        return tok[:200]
+    try:
+        raw = bytes.fromhex(body)
+    except ValueError:
+        return tok[:200]
+    return '%s:<%d bytes sha256 %s first %s last %s>' % (head, len(raw), hashlib.sha256(raw).hexdigest()[:16], raw[:8].hex(), raw[-8:].hex())
+
+
+def _big_bucket(n):
+    return '>2^24' if n > (1 << 24) else '=2^24' if n == (1 << 24) else '2^20+1..2^24-1' if n > (1 << 20) else '2^16-1..2^20'
+
+
+def real_big(spec):
+    """worker: one big-message connection on the real code, judged here (the traces are hundreds of MB of hex: only the verdict,
+       digests and - for the small ones - the trace travel back)"""
+    sc, expected, plains = big_scenario(spec)
+    sw, cw, snt, cnt = spec['cfg']
+    worlds = []
+    trace = world.run_chain([sc], worlds)[0]
+    w = worlds[0]
+    failures = []
+    fail = lambda cls, what, **kw: failures.append(dict(cls=cls, what=what, input=spec, cfg=spec['cfg'], **kw))
+    neg = w.deflate_cfg
+    neg = None if neg is None else [neg.decompress_wbits, neg.compress_wbits, 1 if neg.reset_decompress else 0, 1 if neg.reset_compress else 0]
+    if neg != [sw, cw, snt, cnt]:
+        fail('negotiation', 'negotiated parameters differ from the response header', observed=neg, expected=[sw, cw, snt, cnt])
+    evs = [e for e in events(trace) if e.startswith(('E:text', 'E:binary', 'E:protocol_error'))]
+    data_evs = [e for e in evs if not e.startswith('E:protocol_error')]
+    perr = [e for e in evs if e.startswith('E:protocol_error')]
+    # --- peer -> client: original content, in order, nothing refused (the peer conforms)
+    if perr or data_evs != expected or 'ESCAPED' in trace:
+        bad = next((i for i, (a, b) in enumerate(zip(data_evs, expected)) if a != b), min(len(data_evs), len(expected)))
+        fail('wrong-content-big' if bad < len(data_evs) else 'conforming-peer-refused-big',     # a data event that differs = wrong content delivered, whatever follows
+             'message %d of a conforming peer (%s, %d bytes, %d frame(s), %s) not delivered with its original content' % (
+                 (bad,) + tuple(spec['rx'][bad][:3]) + ('compressed' if spec['rx'][bad][3] else 'uncompressed',)) if bad < len(spec['rx'])
+             else 'more messages delivered than the peer sent',
+             observed=[_digest(e) for e in evs[max(0, bad - 1):bad + 2]] + [t for t in trace.split(' ') if t.startswith('ESCAPED')],
+             expected=[_digest(e) for e in expected[max(0, bad - 1):bad + 2]])
+    # --- client -> peer: the independent zlib peer with window 2^cw over the whole history
+    calls = [c for c in w.calls if c[1] in ('send_text', 'send_binary')]
+    frames = []
+    for x in w.raw[1:]:
+        try:
+            frames += refcodec.decode_client_frames(bytes(x))
+        except refcodec.ClientFrameError as e:
+            fail('client-frame-invalid', 'the client wrote bytes that are not a valid client frame: %s' % e, observed=bytes(x)[:100].hex())
+    dframes = [f for f in frames if f['opcode'] in (0, 1, 2)]
+    done = [(t, p) for t, p, c in zip(spec['tx'], plains, calls) if c[2] == 'ok']
+    peer = DeflatePeer(sw, cw, bool(snt), bool(cnt))
+    if len(done) != len(dframes):
+        fail('frame-count', 'number of data frames written differs from the number of successful sends', observed=len(dframes), expected=len(done))
+    else:
+        for (t, plain), f in zip(done, dframes):
+            typ, size, flag, _at = t
+            payload = f['payload']
+            if f['opcode'] != (1 if typ == 'text' else 2) or f['fin'] != 1 or f['rsv2'] or f['rsv3']:
+                fail('client-frame-header', 'data frame header wrong', observed={k: v for k, v in f.items() if k != 'payload'}, expected=typ)
+                continue
+            if f['rsv1'] and not flag:
+                fail('rsv1', 'RSV1=1 on a send of %d bytes with compress=False' % size, observed=1, expected=0)
+                continue
+            if not f['rsv1']:
+                if payload != plain:
+                    fail('uncompressed-content', 'uncompressed frame payload differs from the %d bytes sent' % size, observed=_digest('W:' + payload.hex()), expected=_digest('W:' + plain.hex()))
+                continue
+            try:
+                got = peer.decompress(payload)
+            except zlib.error as e:
+                fail('peer-cannot-inflate', 'the RFC 7692 peer (window 2^%d) cannot inflate the client frame of a %d byte message: %s' % (cw, size, e), observed=payload[:80].hex())
+                break
+            if got != plain:
+                fail('peer-restores-different-big', 'the RFC 7692 peer restores different content from the frame of a %d byte message' % size,
+                     observed=_digest('Z:' + got.hex()), expected=_digest('Z:' + plain.hex()))
+    return dict(failures=failures, trace=trace if spec.get('model') else None, sent=len(done), frames=len(dframes),
+                results=[c[2] for c in calls])
+
+
+def check_big(res, rng, tier, model_ok):
+    import time
+    specs = big_specs(rng, tier)
+    t0 = time.time()
+    cap = 60 if tier == 'quick' else 900          # time cap: specs not started by then are counted as skipped, never silently
+    reals = []
+    batch = 16
+    for i in range(0, len(specs), batch):
+        if time.time() - t0 > cap:
+            res.count('big:skipped-time-cap', len(specs) - i)
+            res.notes.append('big-message family: %d connections not run (time cap %ds)' % (len(specs) - i, cap))
+            break
+        reals += runner.parallel_map('props.c06', 'real_big', specs[i:i + batch], chunk=1, workers=batch)
+    mlines, midx = [], []
+    for k, (spec, r) in enumerate(zip(specs, reals)):
+        if '__crash__' in r:
+            res.crashes.append(r)
+            continue
+        res.case(('big', tuple(spec['cfg']), spec['seed'], repr(spec['rx']), repr(spec['tx'])), nontrivial=True)
+        res.traces_validated += 1
+        res.count('big:connection' + ('(oracle-only)' if r['trace'] is None else '(oracle+model)'))
+        for typ, n, pieces, z in spec['rx']:
+            if n >= 65535:
+                res.count('big:rx-%s-%s-%s' % (_big_bucket(n),
+                                                'one-frame' if pieces == 1 else 'fragmented', 'compressed' if z else 'plain'))
+                if typ == 'text':
+                    res.count('big:rx-text')
+        for typ, n, flag, _ in spec['tx']:
+            if n >= 65535:
+                res.count('big:tx-%s-%s' % (_big_bucket(n),
+                                            'compress' if flag else 'compress=False'))
+        res.failures += r['failures']
+        if r['trace'] is not None and model_ok:
+            mlines.append(world.scenario_line(big_scenario(spec)[0])); midx.append(k)
+    if mlines:
+        for k, line, m in zip(midx, mlines, model_run_par(mlines, batch=1, threads=4)):
+            if m != reals[k]['trace']:
+                res.diffs.append(dict(input=line[:6000], real=reals[k]['trace'][-1500:], model=m[-1500:], scenario=specs[k], cfg=specs[k]['cfg'], kind='big'))
+    return len(specs)
+
+
 def explore(res, tier, seed, model_ok=True):
     import gencheck   # differential test of the translated code (Generated/Code.lean) against the original Python
     gencheck.run(res, 'C06', tier, seed, model_ok)
@@ -1726,12 +1972,17 @@ def explore(res, tier, seed, model_ok=True):
                 'messages mixed in, random read cuts; plus not-negotiated connections, invalid parameters in the handshake (Rejected), BFINAL blocks '
                 '(RFC 7692 7.2.3.4, with and without context takeover), corrupted payloads and a peer that ignores the negotiated window; '
                 'pairs of such connections with the SAME parameters alive at once in one process (each must behave as it does alone). '
+                'E (big:*): message SIZES - highly compressible messages inflating to 2^16 / 2^20 / 2^24 -1/0/+1 and nearby, 17-20 MiB (thorough: up to 40 MiB, also Text) '
+                'in ONE frame (70%%) or a few fragments, peer->client and client->peer, random configurations, ordinary messages before and after each (context carried on), '
+                'an uncompressed 64 KiB message / a compress=False send among them; judged by the zlib peer on the whole plaintext; ORACLE-ONLY (big:connection(oracle-only)) above 2^20 (thorough: 2^24) bytes of plaintext per connection, '
+                'single-message connections at the 2^16 / 2^20 (thorough: 2^24) boundaries are also run on the Lean core model; under a time cap (skipped connections are counted). '
                 'non-trivial = a compressed message takes part; distinct by (configuration, history, wire bytes)') % ('64 (spread)' if tier == 'quick' else 'all 256')
     check_inflater(res, rng, tier, model_ok)
     check_encoder(res, random.Random(seed * 7919 + 17), tier, model_ok)
     check_deflate_unit(res, rng, tier)
     check_params(res, rng, tier, model_ok)
     check_connections(res, rng, tier, model_ok)
+    check_big(res, random.Random(seed * 104729 + 5), tier, model_ok)
 
 
 def replay(rp):
@@ -1741,6 +1992,16 @@ def replay(rp):
         for t in coreutil.real_duo((inp['duo'][0], inp['duo'][1], inp['pattern'])):
             print(t[:4000])
         print('class:', rp.get('cls'), '| which:', inp.get('which'), '| expected:', rp.get('expected'), '| observed when recorded:', rp.get('observed'))
+        return 0
+    if isinstance(inp, dict) and inp.get('big'):
+        # a big-message connection: rebuilt from its small spec (cfg, seed, sizes), run and judged again
+        sc, expected, _plains = big_scenario(inp)
+        print('spec:', inp)
+        print('expected:', [_digest(e) for e in expected])
+        print('observed:', [_digest(t) for t in world.run_real(sc).split(' ')])
+        for f in real_big(inp)['failures']:
+            print('FAIL', {k: v for k, v in f.items() if k != 'input'})
+        print('class:', rp.get('cls'), '| expected:', rp.get('expected'), '| observed when recorded:', rp.get('observed'))
         return 0
     sc_json = inp if isinstance(inp, dict) else rp.get('scenario')
     if isinstance(sc_json, dict) and 'env' in sc_json:
